@@ -108,6 +108,17 @@ CHECKS["C08"] = dict(
     ref="DESIGN.md section 4 C08",
     technique="TLA+ sort-acceptance predicate, TLC computes acceptable-order sets, replay into Cube")
 
+CHECKS["C05"] = dict(
+    text="Direction B: for seeded display-transform configurations x TLC-generated bags the "
+         "real library is evaluated with and without the transforms on the spec's payload; "
+         "every public array/scalar property found by reflection is recorded (values "
+         "interned) together with the display orders the library reports, and TLC validates "
+         "each recorded pair against the re-index relation of TraceRelation.tla (matrices, "
+         "row/column vectors, position lists and position-set matrices renumbered, scalars "
+         "unchanged, no duplicates, extents). Absolute orders are decided by C07/C08/C09.",
+    ref="DESIGN.md section 4 C05, section 2.2",
+    technique="trace validation: recorded library evaluations checked by TLC against TraceRelation.tla")
+
 NOT_YET = {}
 
 
